@@ -213,8 +213,8 @@ def run(tier, seed, vh, only_paths=None, mode=None):
             paths, gen = gen_paths(run, seed, 60, 6)
             p2, g2 = gen_paths(run, seed + 7, 15, 12)
         else:
-            paths, gen = gen_paths(run, seed, 1500, 6, procs=16)
-            p2, g2 = gen_paths(run, seed + 7, 400, 14, procs=16)
+            paths, gen = gen_paths(run, seed, 800, 6, procs=16)
+            p2, g2 = gen_paths(run, seed + 7, 200, 14, procs=16)
         paths += p2
         phase("mc+gen")
         res["gen_states"] = gen + g2
